@@ -3618,6 +3618,7 @@ pub open spec fn free_frame<T>(o: Seq<Node<T>>, n: Seq<Node<T>>, x: int) -> bool
 }
 
 /// established once at the start of `free_node`, so that every exit path gets the link invariants
+/// (the triggers are the goals themselves: each postcondition is checked on its own at every exit)
 pub proof fn lemma_free_links_all<T>(o: Seq<Node<T>>, x: int)
     // @props C12 C01 C02
     requires
@@ -3626,15 +3627,20 @@ pub proof fn lemma_free_links_all<T>(o: Seq<Node<T>>, x: int)
         0 <= x < o.len(),
         no_links(o[x]),
     ensures
-        forall|n: Seq<Node<T>>| #[trigger] free_frame(o, n, x) ==> links_ok(n),
-        forall|n: Seq<Node<T>>, w: Ranks| #[trigger] free_frame(o, n, x) && #[trigger] ranked(o, w) ==> ranked(n, w),
+        forall|n: Seq<Node<T>>| free_frame(o, n, x) ==> #[trigger] links_ok(n),
+        forall|n: Seq<Node<T>>, w: Ranks| free_frame(o, n, x) && ranked(o, w) ==> #[trigger] ranked(n, w),
+        forall|a: Arena<T>| free_frame(o, a.nodes@, x) ==> #[trigger] a.acyclic(),
 {
     let w0 = choose|w: Ranks| ranked(o, w);
-    assert forall|n: Seq<Node<T>>| #[trigger] free_frame(o, n, x) implies links_ok(n) by {
+    assert forall|n: Seq<Node<T>>| free_frame(o, n, x) implies #[trigger] links_ok(n) by {
         lemma_free_links(o, n, w0, x);
     }
-    assert forall|n: Seq<Node<T>>, w: Ranks| #[trigger] free_frame(o, n, x) && #[trigger] ranked(o, w) implies ranked(n, w) by {
+    assert forall|n: Seq<Node<T>>, w: Ranks| free_frame(o, n, x) && ranked(o, w) implies #[trigger] ranked(n, w) by {
         lemma_free_links(o, n, w, x);
+    }
+    assert forall|a: Arena<T>| free_frame(o, a.nodes@, x) implies #[trigger] a.acyclic() by {
+        lemma_free_links(o, a.nodes@, w0, x);
+        assert(ranked(a.nodes@, w0));
     }
 }
 
